@@ -10,7 +10,8 @@ HERE = os.path.dirname(os.path.abspath(__file__))
 VERIF = os.path.dirname(HERE)
 INC = os.path.join(VERIF, 'seeded', '_incoming')
 # checks to run against a mutant in addition to the property it was written for
-EXTRA = {'C02-U': ['C01'], 'C03-U': ['C04'], 'C03-V': ['C04'], 'C04-U': ['C03'], 'C04-V': ['C03'], 'C06-U': ['C03'], 'C07-U': ['C14'], 'C10-V': ['C13'], 'C11-U': ['C04'], 'C11-V': ['C08'], 'C13-V': ['C10'], 'C14-V': ['C02', 'C01'], 'C16-V': ['C01'], 'C17-U': ['C14'], 'C05-V': ['C02'], 'C12-U': ['C02'], 'C12-V': ['C07'],
+EXTRA = {'C01-W': ['C16'], 'C01-X': ['C10'], 'C02-W': ['C10'], 'C02-X': ['C10'], 'C03-W': ['C04'], 'C03-X': ['C04', 'C13'], 'C04-W': ['C03', 'C13'], 'C05-W': ['C10'], 'C05-X': ['C06'], 'C07-X': ['C10'], 'C08-W': ['C14'], 'C08-X': ['C10'], 'C09-W': ['C15'], 'C09-X': ['C15'], 'C10-W': ['C05'], 'C10-X': ['C13'], 'C11-W': ['C03'], 'C13-W': ['C14', 'C03'], 'C13-X': ['C17'], 'C14-W': ['C02'], 'C14-X': ['C04', 'C06'], 'C15-X': ['C09'], 'C17-W': ['C13'], 'C17-X': ['C14'], 'C06-W': ['C05'], 'C06-X': ['C05'],
+         'C02-U': ['C01'], 'C03-U': ['C04'], 'C03-V': ['C04'], 'C04-U': ['C03'], 'C04-V': ['C03'], 'C06-U': ['C03'], 'C07-U': ['C14'], 'C10-V': ['C13'], 'C11-U': ['C04'], 'C11-V': ['C08'], 'C13-V': ['C10'], 'C14-V': ['C02', 'C01'], 'C16-V': ['C01'], 'C17-U': ['C14'], 'C05-V': ['C02'], 'C12-U': ['C02'], 'C12-V': ['C07'],
          'C01-S': ['C12', 'C02'], 'C01-T': ['C02'], 'C02-S': ['C10'], 'C03-S': ['C04'], 'C04-S': ['C05'], 'C04-T': ['C03'], 'C05-S': ['C06'], 'C05-T': ['C02'], 'C06-S': ['C14', 'C07'], 'C06-T': ['C05'], 'C10-S': ['C02'], 'C10-T': ['C01'], 'C11-S': ['C03'], 'C11-T': ['C04'], 'C12-S': ['C10'], 'C12-T': ['C02'], 'C13-S': ['C17'], 'C13-T': ['C07', 'C10'], 'C14-S': ['C07'], 'C14-T': ['C02'], 'C01-Q': ['C11'], 'C01-R': ['C16'], 'C02-Q': ['C10'], 'C02-R': ['C10'], 'C03-Q': ['C04', 'C06'], 'C03-R': ['C04'], 'C04-Q': ['C03', 'C13'], 'C04-R': ['C03', 'C13'], 'C05-Q': ['C13'], 'C05-R': ['C06'], 'C06-Q': ['C14'], 'C06-R': ['C05'], 'C07-Q': ['C10'], 'C07-R': ['C13', 'C10'], 'C08-R': ['C11'], 'C09-Q': ['C14', 'C02'], 'C09-R': ['C02', 'C11'], 'C10-Q': ['C13'], 'C10-R': ['C13'], 'C11-Q': ['C04'], 'C11-R': ['C02', 'C14'], 'C12-Q': ['C10'], 'C12-R': ['C17'], 'C13-Q': ['C10'], 'C13-R': ['C10'], 'C14-Q': ['C03'], 'C15-R': ['C09'], 'C17-Q': ['C12'], 'C17-R': ['C13'], 'C03-P': ['C04'], 'C01-O': ['C14'], 'C01-P': ['C10'], 'C02-P': ['C10'], 'C04-O': ['C06'], 'C06-O': ['C05'], 'C06-P': ['C04'], 'C07-O': ['C14', 'C06'], 'C07-P': ['C12'], 'C10-O': ['C13'], 'C11-O': ['C01'], 'C11-P': ['C08'], 'C12-O': ['C03'], 'C12-P': ['C07'], 'C13-O': ['C14'], 'C13-P': ['C17'], 'C14-O': ['C01'], 'C14-P': ['C03'], 'C03-F': ['C01'], 'C04-M': ['C03', 'C05', 'C06'], 'C04-N': ['C03'], 'C06-N': ['C03', 'C14'], 'C06-M': ['C04'], 'C09-M': ['C14', 'C02'], 'C09-N': ['C07'], 'C07-N': ['C14'], 'C11-M': ['C03'], 'C11-N': ['C01'], 'C13-M': ['C02'], 'C13-N': ['C10'], 'C14-M': ['C02'], 'C02-M': ['C14'], 'C05-N': ['C09'], 'C17-N': ['C13'], 'C08-N': ['C11'], 'C01-N': ['C10'], 'C03-M': ['C04'], 'C03-N': ['C04'], 'C10-M': ['C02', 'C13'], 'C10-N': ['C13'], 'C12-M': ['C11'], 'C12-N': ['C11'], 'C05-L': ['C10'], 'C08-L': ['C11'], 'C14-L': ['C02'], 'C10-L': ['C13'], 'C02-K': ['C10'], 'C10-K': ['C02'], 'C06-K': ['C04'], 'C04-L': ['C06'], 'C04-K': ['C06'], 'C09-L': ['C14'], 'C10-L': ['C13', 'C14'], 'C13-K': ['C10'], 'C03-L': ['C01'], 'C01-L': ['C12', 'C14'], 'C11-L': ['C07'], 'C07-K': ['C11'], 'C17-K': ['C13'], 'C12-K': ['C11'], 'C12-L': ['C11'], 'C09-I': ['C14', 'C02'], 'C09-J': ['C01', 'C02'], 'C12-J': ['C10'], 'C12-I': ['C03'], 'C11-I': ['C03'], 'C11-J': ['C03'], 'C07-J': ['C03'], 'C14-I': ['C08'], 'C14-J': ['C03'], 'C06-I': ['C05'], 'C06-J': ['C05'], 'C02-I': ['C01'], 'C02-J': ['C01'], 'C01-I': ['C10'], 'C17-J': ['C13'], 'C04-I': ['C03'], 'C04-J': ['C03'], 'C03-J': ['C04'], 'C10-I': ['C01', 'C02'], 'C13-J': ['C10'], 'C05-I': ['C03', 'C04'], 'C15-I': ['C09'], 'C15-J': ['C09'], 'C08-I': ['C11', 'C12'], 'C06-G': ['C14', 'C03'], 'C06-H': ['C03', 'C04'], 'C08-G': ['C11', 'C10'], 'C08-H': ['C12'], 'C09-H': ['C04'], 'C14-G': ['C06'], 'C14-H': ['C07'], 'C17-H': ['C03'], 'C07-G': ['C13'], 'C11-G': ['C13', 'C10'], 'C12-H': ['C13'], 'C12-G': ['C17'], 'C10-G': ['C13'], 'C15-H': ['C09'], 'C05-G': ['C03'], 'C05-H': ['C13'], 'C06-E': ['C05'], 'C06-F': ['C14', 'C07'], 'C07-F': ['C02'], 'C11-E': ['C04'], 'C11-F': ['C08', 'C12'], 'C15-F': ['C09'], 'C13-E': ['C17'], 'C05-F': ['C17', 'C13'],
          'C17-E': ['C05'], 'C17-F': ['C13'], 'C10-E': ['C13'], 'C01-F': ['C03', 'C02'], 'C04-E': ['C03'], 'C09-E': ['C15'], 'C12-E': ['C02'], 'C12-F': ['C02'], 'C08-E': ['C12'],
          'C02-E': ['C12'], 'C14-E': ['C02'], 'C14-F': ['C08'],
@@ -74,12 +75,18 @@ def main():
     pids = sys.argv[1:] or sorted(d for d in os.listdir(INC) if d.startswith('C'))
     out = []
     for pid in pids:
+        only = None
+        if ':' in pid:          # 'C01:W' confirms one change only (one process per change, run in parallel)
+            pid, only = pid.split(':')
         for tag in sorted(f[:-5] for f in os.listdir(os.path.join(INC, pid)) if f.endswith('.diff')):
-            if True:
+            if only is None or tag == only:
                 r = one(pid, tag)
                 out.append(r)
                 print(json.dumps({k: r.get(k) for k in ('id', 'applies', 'confirmed', 'repo_tests', 'demo_on_unchanged_tree_exit', 'demo_with_change_exit', 'caught_by')}), flush=True)
-    json.dump(out, open(os.path.join(VERIF, 'seeded', 'confirm_log.json'), 'w'), indent=1)
+    if os.environ.get('SEED_LOG'):
+        json.dump(out, open(os.environ['SEED_LOG'], 'w'), indent=1)
+    else:
+        json.dump(out, open(os.path.join(VERIF, 'seeded', 'confirm_log.json'), 'w'), indent=1)
 
 
 if __name__ == '__main__':
